@@ -922,6 +922,27 @@ def check_value(x, replay, judge_roundtrip=True):
                 add("serial.roundtrip-image-bytes", "image bytes differ after the round trip")
         except Exception:
             pass
+    # every nested object is rebuilt as an object of the same class (a dict left raw where an image / unit /
+    # metadata object stood serialises identically, but has no interface and no bytes)
+    def deep(a, b, path, depth=0):
+        if depth > 12 or len(out) > 6:
+            return
+        if dataclasses.is_dataclass(a) and not isinstance(a, type):
+            if type(b) is not type(a):
+                add("serial.roundtrip-nested-type", f"{path}: {type(a).__name__} rebuilt as {type(b).__name__}")
+                return
+            for f in dataclasses.fields(a):
+                deep(getattr(a, f.name), getattr(b, f.name, None), f"{path}.{f.name}", depth + 1)
+        elif isinstance(a, (list, tuple)) and isinstance(b, (list, tuple)) and len(a) == len(b):
+            for i, (p, q) in enumerate(zip(a, b)):
+                deep(p, q, f"{path}[{i}]", depth + 1)
+        elif isinstance(a, io.BytesIO):
+            if not (isinstance(b, io.BytesIO) and a.getvalue() == b.getvalue()):
+                add("serial.roundtrip-bytes-field", f"{path}: BytesIO not restored")
+        elif isinstance(a, (bytes, bytearray)):
+            if not (isinstance(b, (bytes, bytearray)) and bytes(a) == bytes(b)):
+                add("serial.roundtrip-bytes-field", f"{path}: bytes not restored")
+    deep(x, y, type(x).__name__)
     # every binary leaf of a declared-binary field is restored as binary with the same bytes
     hints = typing.get_type_hints(type(x))
     for f in dataclasses.fields(x):
